@@ -133,6 +133,12 @@ def check_counters(w, viol) -> int:
         meta_after = {k: v for k, v in res.items() if k != "traceEvents"}
         if meta_before != meta_after:
             viol.append(("counters/metadata-changed", dict(world=w, before=meta_before, after=meta_after)))
+        # the written file is itself a trace file: rank discovery must find the rank recorded in its metadata
+        from hta.common.trace_file import create_rank_to_trace_dict
+
+        ok, mp = create_rank_to_trace_dict([out])
+        if not ok or mp != {w["rank"]: out}:
+            viol.append(("counters/written-file-discovered-under-wrong-rank", dict(world=w, got={str(k): v for k, v in mp.items()})))
     finally:
         sc.drop(d)
     return 1
